@@ -140,6 +140,8 @@ func ruleListText(id string, x, v, filler, wide int) string {
 	fmt.Fprintf(b, "@@||allow.%s.test^\n", l)
 	fmt.Fprintf(b, "||allow.%s.test^\n", l)
 	fmt.Fprintf(b, "||typed.%s.test^$dnstype=AAAA\n", l)
+	fmt.Fprintf(b, "||typeda.%s.test^$dnstype=A\n", l)
+	fmt.Fprintf(b, "||typedc.%s.test^$dnstype=CAA\n", l)
 	fmt.Fprintf(b, "|rw.%s.test^$dnsrewrite=NOERROR;A;10.8.%d.%d\n", l, x, v)
 	fmt.Fprintf(b, "|rwc.%s.test^$dnsrewrite=NOERROR;CNAME;target%d.%s.test\n", l, v, l)
 	fmt.Fprintf(b, "|rwr.%s.test^$dnsrewrite=REFUSED\n", l)
@@ -195,7 +197,7 @@ func svcIndexJSON(c content) string {
 		for j := 1; j <= v; j++ {
 			s.Rules = append(s.Rules, fmt.Sprintf("||s%d.%s.test^", j, label(id)))
 		}
-		s.Rules = append(s.Rules, fmt.Sprintf("||fixed.%s.test^", label(id)))
+		s.Rules = append(s.Rules, fmt.Sprintf("||fixed.%s.test^", label(id)), fmt.Sprintf("||typed.%s.test^$dnstype=AAAA", label(id)))
 		svcs = append(svcs, s)
 	}
 	b, _ := json.Marshal(map[string]any{"blocked_services": svcs})
@@ -657,6 +659,9 @@ type requester struct {
 
 	ClientName string
 	RemoteIP   netip.Addr
+
+	// grp is the long-lived configuration of an anonymous filtering group.
+	grp *filter.ConfigGroup
 }
 
 type ctorSpec struct {
@@ -764,6 +769,7 @@ func newRequesters() []*requester {
 	}
 	for _, q := range rs {
 		q.Ident += fmt.Sprintf(" | edns=%v do=%v udp=%d reqEDE=%v rd=%v cd=%v", q.EDNS, q.DO, q.UDPSize, q.ReqEDE, q.RD, q.CD)
+		q.fix()
 	}
 	return rs
 }
@@ -773,9 +779,27 @@ func newRequesters() []*requester {
 func (q *requester) config(customVer int) filter.Config {
 	rl := &filter.ConfigRuleList{IDs: q.RuleLists, Enabled: len(q.RuleLists) > 0}
 	if q.Profile == nil {
+		if q.grp != nil {
+			return q.grp
+		}
 		return &filter.ConfigGroup{Parental: q.Parental, RuleList: rl, SafeBrowsing: q.SafeBrows}
 	}
 	return &filter.ConfigClient{Custom: q.Profile.config(customVer), Parental: q.Parental, RuleList: rl, SafeBrowsing: q.SafeBrows}
+}
+
+// fix must be called after the filtering settings of q have been set and
+// before q is used: as in production, the configuration of a filtering group
+// is ONE long-lived *filter.ConfigGroup, the same pointer for every request.
+func (q *requester) fix() *requester {
+	q.grp = nil
+	if q.Profile == nil {
+		q.grp = &filter.ConfigGroup{
+			Parental:     q.Parental,
+			RuleList:     &filter.ConfigRuleList{IDs: q.RuleLists, Enabled: len(q.RuleLists) > 0},
+			SafeBrowsing: q.SafeBrows,
+		}
+	}
+	return q
 }
 
 func (q *requester) customVer() int {
@@ -864,7 +888,7 @@ type query struct {
 }
 
 func (qu query) String() string {
-	s := fmt.Sprintf("%s/%s", qu.Host, dns.TypeToString[qu.QType])
+	s := fmt.Sprintf("%s/%s", qu.Host, dns.Type(qu.QType).String())
 	if qu.Resp {
 		s += "/resp[" + qu.Ans + "]"
 	}
